@@ -69,18 +69,20 @@ def handle (j : Json) : Except String Json := do
       pure (nm, lexFile ls)
     let fs : FS String := fun nm => (files.find? (·.1 = nm)).map (·.2)
     let f := lexFile lines
-    let spl := spliceNew fs f
+    let k := files.length + 1
+    let spl := spliceNew fs k f
     let dangling := ((spl.foldl (fun s l => (step s l).2) ({} : St)).mode != .top)
-    let dup := !(decide (includeNames f).Nodup)
+    let dup := !(decide (includeNames spl).Nodup)
     let out := cycle P spl
     return Json.mkObj [
       ("out", Json.arr (out.map outLine).toArray),
-      ("out2_same", Json.bool (cycle P (spliceNew fs out) == out)),
+      ("out2_same", Json.bool (cycle P (spliceNew fs k out) == out)),
       ("keys_in", keysJson (keySeq kwString f)),
       ("spec", keysJson (coalesce kwString (keySeq kwString f))),
       ("model_keys", keysJson (coalesce kwString (keySeq kwString out))),
-      ("cycles", Json.arr (cycles (spliceNew fs) n f).toArray),
+      ("cycles", Json.arr (cycles (spliceNew fs k) n f).toArray),
       ("cycles_old", Json.arr (cycles (spliceOld fs) n f).toArray),
+      ("tables", Json.mkObj [("sfac", ofStrs (tableVals .sfac (parse spl))), ("fvar", ofStrs (tableVals .fvar (parse spl)))]),
       ("dangling", Json.bool dangling), ("dup", Json.bool dup)]
   | "coalesce" =>
     -- the specification on key sequences produced by the harness's own lexer
